@@ -25,6 +25,17 @@ OS_FLAGS = {
     "MRP": os.O_RDWR,
 }
 _ORIG_OPEN = builtins.open
+ACC = {"ARd": os.O_RDONLY, "AWr": os.O_WRONLY, "ARdWr": os.O_RDWR}
+
+
+class Unsupported(Exception):
+    """The filesystem below the scratch directory does not support the operation (O_TMPFILE)."""
+
+
+def os_flags(fl) -> int:
+    acc, creat, excl, trunc, append, tmpfile = fl
+    return (ACC[acc] | (os.O_CREAT if creat else 0) | (os.O_EXCL if excl else 0) | (os.O_TRUNC if trunc else 0)
+            | (os.O_APPEND if append else 0) | (os.O_TMPFILE if tmpfile else 0))
 
 
 def real(root: str, p) -> str:
@@ -110,6 +121,21 @@ def perform(root: str, op):
                 f.write(data)
         finally:
             f.close()
+    elif kind == "OsOpen":
+        import errno
+
+        _, p, fl_, data, _ = op
+        try:
+            fd = os.open(real(root, p), os_flags(fl_), 0o644)
+        except OSError as e:
+            if fl_[5] and e.errno == errno.EOPNOTSUPP:
+                raise Unsupported from e
+            raise
+        try:
+            if fl_[0] != "ARd":
+                os.write(fd, data.encode())
+        finally:
+            os.close(fd)
     elif kind == "Touch":
         Path(real(root, op[1])).touch()
     elif kind == "Mkdir":
@@ -196,6 +222,9 @@ def run_case(root: str, init, ops, tmp_sibling: bool = False):
             try:
                 perform(root, op)
                 r = "ROk"
+            except Unsupported:
+                skipped += 1
+                continue
             except PermissionError as e:
                 r = "RRefused" if str(e).startswith("Attempted to") else "RErr"
             except Exception:  # noqa: BLE001
@@ -290,6 +319,17 @@ def gen_ops(rng, init, n):
                 fls += ["write_text", "write_bytes"]
             ops.append(("Open", p, m, rng.choice(["", "z", "yy", "new"]), rng.choice(fls)))
             g.new.append(p)
+        elif rng.random() < 0.11:
+            # os.open with an arbitrary flag set, also modifiers without a write access mode
+            p = g.some(rng, 0.35) if rng.random() < 0.7 else g.fresh(rng)
+            acc = rng.choice(["ARd", "ARd", "ARd", "AWr", "ARdWr"])
+            if rng.random() < 0.1:
+                fl = (acc, False, False, False, False, True)
+            else:
+                fl = (acc, rng.random() < 0.3, rng.random() < 0.25, rng.random() < 0.45, rng.random() < 0.25, False)
+            ops.append(("OsOpen", p, fl, rng.choice(["", "z", "yy", "new"]), "os.open.flags"))
+            if fl[1]:
+                g.new.append(p)
         elif c < 0.30:
             p = g.some(rng, 0.3) if rng.random() < 0.5 else g.fresh(rng)
             ops.append(("Touch", p, "Path.touch"))
@@ -344,6 +384,9 @@ def op_kind(op) -> str:
     k = op[0]
     if k == "Open":
         return f"Open.{op[2]}"
+    if k == "OsOpen":
+        acc, creat, excl, trunc, append, tmpfile = op[2]
+        return "OsOpen." + acc[1:] + ("".join(ch for ch, b in zip("CXTAM", (creat, excl, trunc, append, tmpfile)) if b) or "-")
     if k in ("Mkdir", "Makedirs"):
         return k + (".eo" if op[2] else "")
     return k
